@@ -53,7 +53,7 @@ func cmdVerify(args []string) {
 	fs.Parse(args)
 	dirs := strings.Split(*pkg, ",")
 	t0 := time.Now()
-	ld, err := eng.Load(*repo, *verif, dirs)
+	ld, err := eng.LoadOpt(*repo, *verif, dirs, true)
 	if err != nil {
 		fmt.Println("load:", err)
 		os.Exit(2)
